@@ -445,7 +445,14 @@ def c11_9(ctx):
     return out
 
 
+def c11_10(ctx):
+    """the summary recomputes every derived key: nothing is remembered under a key that leaves out the xpub, path or script"""
+    from sa.memo import memo_obligation
+    return memo_obligation(ctx, ["psbt", "psbt_helper"], "a derivation checked for one xpub would vouch for another")
+
+
 OBLIGATIONS = [
+    ("C11.10", "MEMO", c11_10),
     ("C11.9", "GUARD relation", c11_9),
     ("C11.1", "GUARD commitment", c11_1),
     ("C11.2", "GUARD", c11_2),
